@@ -383,7 +383,13 @@ func (k *Case) Do(step []any) error {
 			}
 		}
 	case "RFanout":
+		// (the argument of RFanout(lost) names the outcome of a race in the as-coded fan-out loop;
+		// it cannot be forced, the recorded abstraction shows which outcome the code took)
 		err = c.Grant("crecv_fanout", 0)
+		args = nil
+		if err == nil && c.findParked("crecv_fanned", 0) != nil {
+			err = c.Grant("crecv_fanned", 0) // optional hook after the Done send: the woken caller has finished
+		}
 	default:
 		return fmt.Errorf("unknown action %s", act)
 	}
